@@ -192,6 +192,11 @@ pub fn generate(seed: u64) -> Scenario {
         }
         let content = if bad_content && r.chance(1, 3) {
             b"\xffnot utf-8\xfe".to_vec()
+        } else if r.chance(1, 40) {
+            // a very long value (longer than an 8 KiB / 64 KiB buffer or the kernel's 128 KiB
+            // limit for one environment string)
+            let len = *r.pick(&[8_193usize, 70_000, 140_000]);
+            (0..len).map(|i| b"abcdefghijklmnopqrstuvwxyz:/=\n"[(i * 7 + i / 31) % 30]).collect()
         } else {
             r.pick(&CONTENTS).to_vec()
         };
